@@ -1120,3 +1120,90 @@ package gedcom
 //@   oncall Writer.Write do nW = nW + 1
 //@   ensures bom-iff: nW == ite(enc.document.HasBOM, 1, 0)
 //@   assigns everything
+
+// ---------------------------------------------------------------------------
+// C04: the documented DATE grammar (from the property text, not from the
+// DateWords constants): an optional about/before/after keyword in any of its
+// 15 spellings and any letter case, an optional day 1..31 (one leading zero
+// allowed), an optional month name or abbreviation (23 spellings), a 1-4 digit
+// year; and ranges 'between|bet|bet.|from X and|to|- Y'. The value has been
+// through CleanSpace (single blanks). Groups of dateRegexp: 1 keyword (exactly
+// the word: DateConstraintFromString compares it with the word lists), 2 day
+// with its blank, 3 month with its blank, 4 year. Groups of dateRangeRegexp:
+// 2 and 4 are the two dates.
+//@ rxp date-groups props C04 regexp dateRegexp language: (?i)((?P<g1>abt|abt\.|about|c\.|ca|ca\.|cca|cca\.|circa|aft|aft\.|after|bef|bef\.|before) )?(?P<g2>(0?[1-9]|[12][0-9]|3[01]) )?(?P<g3>(jan|january|feb|february|mar|march|apr|april|may|jun|june|jul|july|aug|august|sep|september|oct|october|nov|november|dec|december) )?(?P<g4>[0-9]{1,4})
+//@ rxp range-groups props C04 regexp dateRangeRegexp language: (?i)(?P<g1>between|bet|bet\.|from) (?P<g2>((?:abt|abt\.|about|c\.|ca|ca\.|cca|cca\.|circa|aft|aft\.|after|bef|bef\.|before) )?((?:0?[1-9]|[12][0-9]|3[01]) )?((?:jan|january|feb|february|mar|march|apr|april|may|jun|june|jul|july|aug|august|sep|september|oct|october|nov|november|dec|december) )?(?:[0-9]{1,4})) (?P<g3>and|to|-) (?P<g4>((?:abt|abt\.|about|c\.|ca|ca\.|cca|cca\.|circa|aft|aft\.|after|bef|bef\.|before) )?((?:0?[1-9]|[12][0-9]|3[01]) )?((?:jan|january|feb|february|mar|march|apr|april|may|jun|june|jul|july|aug|august|sep|september|oct|october|nov|november|dec|december) )?(?:[0-9]{1,4}))
+
+// C04: after the groups: the day and the year are the numbers of groups 2 and
+// 4, the month is looked up by the (lower-cased, trimmed) text of group 3, the
+// constraint by the text of group 1; a calendar-impossible day is reported as
+// a parse error instead of becoming another date (time.Parse by its contract
+// in contracts/time.gvc: fails exactly when (day, month, year) is no civil
+// date), and a date without a day is taken as written.
+//@ func parseDateParts
+//@   props C04
+//@   ghost dayText string = ""
+//@   ghost dayV int = 0
+//@   ghost yearV int = 0
+//@   ghost monthV int = 0
+//@   ghost cons int = 0
+//@   ghost matched bool = false
+//@   oncall Regexp.FindStringSubmatch check input: arg1 == dateString
+//@   oncall Regexp.FindStringSubmatch do matched = len(result) > 0
+//@   oncall Atoi#1 check day-text: arg0 == parts[2]
+//@   oncall Atoi#1 do dayV = result; dayText = arg0
+//@   oncall Atoi#2 check year-text: arg0 == parts[4]
+//@   oncall Atoi#2 do yearV = result
+//@   oncall parseMonthName check month-text: arg1 == 3
+//@   oncall parseMonthName do monthV = months[result0]
+//@   oncall DateConstraintFromString check keyword-text: arg0 == parts[1]
+//@   oncall DateConstraintFromString do cons = result
+//@   ensures no-match: implies(!matched, !isnil(result.ParseError))
+//@   ensures impossible-day: implies(matched && dayText != "" && !validDMY(dayV, monthV, yearV), !isnil(result.ParseError) && result.Day == 0 && result.Month == 0 && result.Year == 0)
+//@   ensures as-written: implies(matched && (dayText == "" || validDMY(dayV, monthV, yearV)), isnil(result.ParseError) && result.Day == dayV && result.Month == monthV && result.Year == yearV && result.Constraint == cons)
+//@   ensures end-flag: result.IsEndOfRange == isEndOfRange
+
+// C04: both ends. A range gives group 2 to the start and group 4 to the end;
+// a single date gives the same (cleaned) text to both; the start is parsed as
+// a start, the end as an end, and NewDateRange keeps them in that order.
+//@ func NewDateRangeWithString
+//@   props C04
+//@   ghost n int = 0
+//@   oncall Regexp.FindStringSubmatch check input: arg1 == dateString
+//@   oncall parseDateParts#1 check range-start: len(parts) > 0 && arg0 == parts[2] && arg1 == false
+//@   oncall parseDateParts#2 check range-end: len(parts) > 0 && arg0 == parts[4] && arg1 == true
+//@   oncall parseDateParts#3 check single-start: len(parts) == 0 && arg0 == dateString && arg1 == false
+//@   oncall parseDateParts#4 check single-end: len(parts) == 0 && arg0 == dateString && arg1 == true
+//@   oncall parseDateParts do n = n + 1
+//@   oncall NewDateRange#1 check order: arg0 == datePart1 && arg1 == datePart2
+//@   oncall NewDateRange#2 check order: arg0 == datePart1 && arg1 == datePart2
+//@   ensures two-ends: n == 2
+//@ func NewDateRange
+//@   props C04
+//@   ensures ends: result.start.Day == start.Day && result.start.Month == start.Month && result.start.Year == start.Year && result.start.Constraint == start.Constraint && result.end.Day == end.Day && result.end.Month == end.Month && result.end.Year == end.Year && result.end.Constraint == end.Constraint
+//@   ensures flags: !result.start.IsEndOfRange && result.end.IsEndOfRange
+
+// C04: the tables. The word lists and the month table in the current source
+// are the documented ones (from the property text), and the keyword lookup
+// maps membership in the about / after / before list to that constraint.
+//@ lemma date-word-lists props C04: DateWordsAbout == "Abt.|abt|about|c.|ca|ca.|cca|cca.|circa" && DateWordsAfter == "Aft.|aft|after" && DateWordsBefore == "Bef.|bef|before" && DateWordsBetween == "Bet.|bet|between|from" && DateWordsAnd == "and|to|-"
+//@ lemma month-table props C04: months["jan"] == 1 && months["january"] == 1 && months["feb"] == 2 && months["february"] == 2 && months["mar"] == 3 && months["march"] == 3 && months["apr"] == 4 && months["april"] == 4 && months["may"] == 5 && months["jun"] == 6 && months["june"] == 6 && months["jul"] == 7 && months["july"] == 7 && months["aug"] == 8 && months["august"] == 8 && months["sep"] == 9 && months["september"] == 9 && months["oct"] == 10 && months["october"] == 10 && months["nov"] == 11 && months["november"] == 11 && months["dec"] == 12 && months["december"] == 12 && months["sept"] == 0 && months[""] == 0
+//@ func DateConstraintFromString
+//@   props C04
+//@   ghost inAbout bool = false
+//@   ghost inAfter bool = false
+//@   ghost inBefore bool = false
+//@   ghost lower string = ""
+//@   oncall strings.ToLower#1 check whole-word: arg0 == word
+//@   oncall strings.ToLower#1 do lower = result
+//@   oncall wordInWords#1 check about-list: arg0 == lower && arg1 == DateWordsAbout
+//@   oncall wordInWords#1 do inAbout = result
+//@   oncall wordInWords#2 check after-list: arg0 == lower && arg1 == DateWordsAfter
+//@   oncall wordInWords#2 do inAfter = result
+//@   oncall wordInWords#3 check before-list: arg0 == lower && arg1 == DateWordsBefore
+//@   oncall wordInWords#3 do inBefore = result
+//@   ensures table: result == ite(inAbout, DateConstraintAbout, ite(inAfter, DateConstraintAfter, ite(inBefore, DateConstraintBefore, DateConstraintExact)))
+//@ func wordInWords
+//@   only C04
+//@   trusted
+//@   pure
